@@ -35,7 +35,7 @@ type Trace struct {
 	Log      []track.Event `json:"log"`
 	Calls    int           `json:"calls"`
 	Fails    int           `json:"fails"`
-	Garbled  int           `json:"garbled"` // retx: copies written for a message ID that differ from the first one (or do not parse)
+	Garbled  int           `json:"garbled"` // retx: copies written for a message ID that differ from the first one (or do not parse); bwpark: accesses to the request's body after the request call returned
 	Copies   int           `json:"copies"`  // retx: retransmitted copies seen
 }
 
@@ -211,6 +211,8 @@ func Run(stimPath, out string) {
 		if os.Getenv("VERIF_DEBUG") != "" {
 			println("retx", time.Since(t0).String())
 		}
+		wr.Put(bwpark(0))
+		wr.Put(bwpark(64))
 		wr.Put(dupcache(0, 70))
 		wr.Put(dupcache(64, 70))
 		wr.Put(tcpbw(rec.Seed()*100+int64(k), 0, rounds))
